@@ -322,6 +322,19 @@ def build_calls(rows, rng, tier, per_row):
                         continue    # xchg eax/rax with itself is canonically NOP (90): not a form of xchg under any decoder
                     calls.append({"mode": mode, "base": base, "row": row["id"], "name": row["name"], "opt": opt, "extra": extra, "ops": vops, "deco": deco,
                                   "strat": strat + ("/impl" if vi == 0 and len(variants) > 1 else ""), "memform": bool(has_mem and memform)})
+    # cross-mode: the first two calls of every row restricted to one mode are also issued in the OTHER mode, where they must be refused
+    # or be encoded as what that mode's rows say (vmload eax in 64-bit mode must not become vmload rax)
+    arch_of = {r["id"]: r.get("arch", 0) for r in rows}
+    seen_x = {}
+    cross = []
+    for c in calls:
+        if c["mode"] == 64 and any(o[0] == "M" and o[3] == 20 for o in c["ops"]):
+            continue    # [rip+d] in 32-bit mode is emulated by AsmJit with an absolute address and a relocation (EmitModSib_LabelRip_X86)
+        if arch_of.get(c["row"]) in (1, 2) and seen_x.get(c["row"], 0) < 2 and not c.get("base"):
+            seen_x[c["row"]] = seen_x.get(c["row"], 0) + 1
+            c2 = dict(c); c2["mode"] = 64 if c["mode"] == 32 else 32; c2["strat"] = "cross-mode"; c2["deco"] = dict(c["deco"])
+            cross.append(c2)
+    calls += cross
     calls += pinned_calls(rows)
     # one-shot state: ~6 % of the calls are issued right after a REFUSED instruction that carried lock+rep options and {k3}, in a
     # CodeHolder whose error handler does not return (longjmp): nothing of that state may leak into the call
@@ -401,33 +414,44 @@ def pinned_calls(rows):
     # (3) prefix order on the special emit paths (fixed-register memory, register-addressed memory): in 64-bit mode, 32-bit and 64-bit
     # addressing, a segment override on the operand that takes one, and every free register >= 8, so that override prefixes AND a
     # REX prefix are needed together (EmitX86OpImplicitMem / EmitX86RFromM emitted REX first)
+    # Round 4: the sweep is complete over (row with such an operand) x (mode) x (both address sizes of the mode) x (all six segment
+    # overrides, on the operand that may take one AND, separately, on the es-side operand that may not); AsmJit's own signature table
+    # (operands flagged kFlagMemBase, dumped by c01_dump) is compared with the set of these rows in run().
     for row in rows:
-        if row["unsupported"] or row["arch"] == 1 or not any(d["slot"] in (9, 11, 13) for d in row["ops"]):
+        if row["unsupported"] or not any(d["slot"] in (9, 11, 13) for d in row["ops"]):
             continue
-        for acls in (3, 4):
-            for seg in (0, 5):
-                ops = []
-                for k, d in enumerate(row["ops"]):
-                    if d["slot"] == 9:
-                        ops.append(["M", d["msz"], seg if d["immval"] == 1 else 0, acls, d["fixed"], 0, 0, 0, 0, 0, 0])
-                    elif d["slot"] == 11:
-                        ops.append(["M", d["msz"], 0, acls, 15, 0, 0, 0, 0, 0, 0])
-                    elif d["slot"] == 13:
-                        ops.append(["M", d["msz"], seg, acls, 15, 0, 0, 0, 0, 0, 0])
-                    elif d["kind"] == 3:
-                        ops.append(["I", d["immval"] if d["immval"] >= 0 else 1])
-                    elif d["kind"] in (1, 2) and d["slot"] == 2 and any(x["slot"] == 11 for x in row["ops"]):
-                        ops.append(["M", d["msz"], seg, acls, 9, 0, 0, 0, 64, 0, 0])
-                    elif d["kind"] in (0, 2) and d["slot"] != 10:
-                        ops.append(["R", d["cls"], d["fixed"] if d["fixed"] >= 0 else (9 if d["cls"] in (2, 3, 4, 6, 7, 8) else 1)])
-                    else:
-                        ops = None
-                        break
-                if ops is None or len(ops) > 6:
-                    continue
-                for vops in ([ops] + ([[o for o, d in zip(ops, row["ops"]) if not d["implicit"]]] if any(d["implicit"] for d in row["ops"]) else [])):
-                    out.append({"mode": 64, "base": None, "row": row["id"], "name": row["name"], "opt": 0, "extra": "-", "ops": vops, "deco": dict(d0),
-                                "strat": "pinned-prefix-order-a%d-seg%d" % (acls, seg), "memform": True})
+        modes = [32, 64]
+        if row["arch"] == 1: modes = [32]
+        if row["arch"] == 2: modes = [64]
+        es_side = [k for k, d in enumerate(row["ops"]) if d["slot"] == 9 and d["immval"] != 1]
+        for mode in modes:
+            hi = 15 if mode == 64 else 7
+            for acls in ((3, 4) if mode == 64 else (2, 3)):
+                for seg in range(7):
+                    # (es: on the es-side operand is the default: whatever is emitted for it is harmless, not generated)
+                    for on_es in ([False, True] if es_side and seg > 1 else [False]):
+                        ops = []
+                        for k, d in enumerate(row["ops"]):
+                            if d["slot"] == 9:
+                                ops.append(["M", d["msz"], (seg if (d["immval"] == 1) != on_es else 0), acls, d["fixed"], 0, 0, 0, 0, 0, 0])
+                            elif d["slot"] == 11:
+                                ops.append(["M", d["msz"], 0, acls, hi, 0, 0, 0, 0, 0, 0])
+                            elif d["slot"] == 13:
+                                ops.append(["M", d["msz"], seg, acls, hi, 0, 0, 0, 0, 0, 0])
+                            elif d["kind"] == 3:
+                                ops.append(["I", d["immval"] if d["immval"] >= 0 else 1])
+                            elif d["kind"] in (1, 2) and d["slot"] == 2 and any(x["slot"] == 11 for x in row["ops"]):
+                                ops.append(["M", d["msz"], seg, acls, 9 if mode == 64 else 1, 0, 0, 0, 64, 0, 0])
+                            elif d["kind"] in (0, 2) and d["slot"] != 10:
+                                ops.append(["R", d["cls"], d["fixed"] if d["fixed"] >= 0 else ((9 if mode == 64 else 1) if d["cls"] in (2, 3, 4, 6, 7, 8) else 1)])
+                            else:
+                                ops = None
+                                break
+                        if ops is None or len(ops) > 6:
+                            continue
+                        for vops in ([ops] + ([[o for o, d in zip(ops, row["ops"]) if not d["implicit"]]] if any(d["implicit"] for d in row["ops"]) else [])):
+                            out.append({"mode": mode, "base": None, "row": row["id"], "name": row["name"], "opt": 0, "extra": "-", "ops": vops, "deco": dict(d0),
+                                        "strat": "pinned-prefix-order-%d-a%d-%s" % (mode, acls, "es-side-seg" if on_es else ("seg" if seg else "noseg")), "memform": True})
     return out
 
 
@@ -436,16 +460,6 @@ def harness_line(c):
     for o in c["ops"]:
         toks += [str(t) for t in o]
     return " ".join(toks)
-
-
-# the x87 "wait" forms: fstsw = fwait (9B) + fnstsw, ... (db/isa_x86.json writes them as rows with a 9B prefix; the structural decoder
-# sees two instructions).  Every call generated for an fn* row is issued a second time under the wait mnemonic: the assembler must
-# answer 9B followed by bytes that denote the fn* call.
-WAIT_FORMS = {"fnclex": "fclex", "fninit": "finit", "fnsave": "fsave", "fnstcw": "fstcw", "fnstenv": "fstenv", "fnstsw": "fstsw"}
-
-
-def strip_wait(c, hb):
-    return hb[2:] if c.get("wait9b") and hb.startswith("9b") else hb
 
 
 def judge_line(c, hexbytes):
@@ -594,7 +608,7 @@ def implicit_regs(row, mode):
 
 
 # coverage floors recorded when the check was claimed (pinned tree: 4484 supported rows, ~4180 rows with a verified call per quick run)
-MIN_SUPPORTED_ROWS = 4545
+MIN_SUPPORTED_ROWS = 4555
 MIN_VERIFIED_ROWS = 4150
 
 ALIAS_FILE = os.path.join(vlib.VERIF, "corpus", "C01_llvm_alias.txt")
@@ -792,6 +806,16 @@ def run(ck):
     ttext, tinfo = c01_tables.coq_text(tabs, insts, names, rows)
     th_failed = ck.coq_make(["theories/X86/X86Denote.vo", "theories/X86/X86DbCheck.vo", "theories/X86/X86Proofs.vo", "theories/X86/X86TablesSpec.vo",
                              "theories/X86/X86UniqueProofs.vo", "theories/X86/X86JudgeProofs.vo"])
+    # AsmJit's own signature table: every mnemonic with an operand restricted to a fixed base register (kFlagMemBase) must have
+    # database rows with a fixed-register / register-addressed memory operand, i.e. be walked by the complete override sweep
+    fixed_sig_names = sorted(set(sg["name"] for sg in tabs.get("_sigs", [])))
+    fixed_row_names = set(r["name"] for r in rows if not r["unsupported"] and any(d["slot"] in (9, 11, 13) for d in r["ops"]))
+    missing_fixed = [n for n in fixed_sig_names if n not in fixed_row_names]
+    if missing_fixed or not fixed_sig_names:
+        ck.violation("C01/fixed-base-signature-without-row/" + "+".join(missing_fixed[:6]),
+                     "AsmJit's signature table accepts an explicit fixed-base memory operand for %s, but no supported database row has such an "
+                     "operand: the override sweep does not reach them" % (missing_fixed or "NO instruction (dump broken?)"),
+                     {"broken": "coverage of the fixed-base memory operand sweep", "names": missing_fixed}, no_input=True)
     regen = own_regen(ck, {"IsaX86Db.v": text, "X86Tables.v": ttext}, ["IsaX86Db.v", "X86Tables.v"])
     gen_dir = None
     if regen is not None:
@@ -835,7 +859,7 @@ def run(ck):
         print("call :", line)
         print("impl :", a)
         if a.startswith("OK"):
-            hb = strip_wait(c, a.split()[1] if len(a.split()) == 3 else "")
+            hb = a.split()[1] if len(a.split()) == 3 else ""
             print("model:", vlib.sh([model], inp=judge_line(c, hb) + "\n")[1].strip())
             ll = llvm_decode([[int(hb[i:i + 2], 16) for i in range(0, len(hb), 2)]], c["mode"])
             print("llvm :", ll)
@@ -848,12 +872,6 @@ def run(ck):
     if os.path.exists(corpus):
         pre = [json.loads(l) for l in open(corpus) if l.strip() and not l.startswith("#")]
         calls = pre + calls
-    waits = []
-    for c in calls:
-        if c["name"] in WAIT_FORMS and not c.get("wait9b"):
-            c2 = dict(c); c2["hname"] = WAIT_FORMS[c["name"]]; c2["wait9b"] = True
-            waits.append(c2)
-    calls = calls + waits
     name_ids = {n: i for i, n in enumerate(names)}
     for c in calls:
         c["name_id"] = name_ids.get(c["name"], -1)
@@ -865,24 +883,12 @@ def run(ck):
         ans = ["BAD"] * len(calls)
     # answer "OK <hex> <start>"; an instruction that appends nothing answers "OK <start>"
     acc = [(c, a.split()[1] if len(a.split()) == 3 else "", int(a.split()[-1])) for c, a in zip(calls, ans) if a.startswith("OK")]
-    acc2 = []
-    for c, hb, st0 in acc:
-        if c.get("wait9b") and not hb.startswith("9b"):
-            if re.match(r"^(26|2e|36|3e|64|65|67)+9b", hb):
-                # the override prefixes of the memory operand precede FWAIT: they apply to FWAIT and are lost for the instruction
-                ck.violation("C01/wait-form-override-prefix-before-fwait/%s" % c["hname"],
-                             "accepted call `%s` appended bytes %s: the segment / address-size override prefixes come before fwait (9B), so they "
-                             "belong to fwait and the memory operand of the following instruction is read without them" % (harness_line(c), hb),
-                             {"call": c, "impl": hb})
-            else:
-                ck.violation("C01/%s/wait-prefix-missing" % c["hname"], "accepted call `%s` appended bytes %s, which do not start with fwait (9B)"
-                             % (harness_line(c), hb), {"call": c, "impl": hb})
-            continue
-        acc2.append((c, hb, st0))
-    starts = {k: t[2] for k, t in enumerate(acc2)}
-    acc = [(c, hb) for c, hb, _ in acc2]
-    wait_forms_verified = len([1 for c, hb in acc if c.get("wait9b") and hb.startswith("9b")])
-    acc = [(c, strip_wait(c, hb)) for c, hb in acc]
+    starts = {k: t[2] for k, t in enumerate(acc)}
+    acc = [(c, hb) for c, hb, _ in acc]
+    wait_forms_verified = 0
+    is_wait = lambda c: bool(byid.get(c["row"], {}).get("wait"))
+    # llvm-mc reads FWAIT + the no-wait form as two instructions: it is given the bytes after the leading 9B of a wait-form call
+    llvm_hb = lambda c, hb: hb[2:] if is_wait(c) and hb.startswith("9b") else hb
     rejected = len([a for a in ans if a.startswith("ERR")])
     dirty = [(c, a) for c, a in zip(calls, ans) if a.startswith("ERR") and a.split()[2] != "0"]
     noinst = sorted(set(c["name"] for c, a in zip(calls, ans) if a == "NOINST"))
@@ -894,7 +900,7 @@ def run(ck):
     alt = {}
     for k, (c, hb) in enumerate(acc):
         if c.get("base"):
-            end = c["base"] + starts[k] + len(hb) // 2 + (1 if c.get("wait9b") else 0)
+            end = c["base"] + starts[k] + len(hb) // 2
             ops2 = []
             okv = False
             for o in c["ops"]:
@@ -927,7 +933,8 @@ def run(ck):
     ll = {}
     for mode in (32, 64):
         idx = [i for i, (c, hb) in enumerate(acc) if c["mode"] == mode]
-        outs = llvm_decode([[int(acc[i][1][k:k + 2], 16) for k in range(0, len(acc[i][1]), 2)] for i in idx], mode)
+        lhb = {i: llvm_hb(*acc[i]) for i in idx}
+        outs = llvm_decode([[int(lhb[i][k:k + 2], 16) for k in range(0, len(lhb[i]), 2)] for i in idx], mode)
         for i, o in zip(idx, outs):
             ll[i] = o
     def enc_kind_of(hb):
@@ -961,7 +968,7 @@ def run(ck):
                 lprobs = []
             st = "ok-norow"
         if st == "ok" and row is not None:
-            lprobs = llvm_compare(c, row, ltext, lbytes, hb, aliases)
+            lprobs = llvm_compare(c, row, ltext, lbytes, llvm_hb(c, hb), aliases)
             if linsts != 1:
                 lprobs.append(("count", "llvm-mc decodes %d instructions" % linsts))
         key_form = "%s/%s" % (c.get("hname", c["name"]), "/".join("R%d" % o[1] if o[0] == "R" else ("M" if o[0] == "M" else "L" if o[0] == "L" else "I") for o in c["ops"]))
@@ -969,6 +976,7 @@ def run(ck):
         strata[c["strat"]] = strata.get(c["strat"], 0) + 1
         if vcode == "0":
             stats["verdict_ok"] += 1
+            wait_forms_verified += 1 if is_wait(c) else 0
             covered_rows.add(c["row"])
             nontrivial.add((c["row"], c["mode"], c["strat"], c["memform"], c["opt"] != 0))
             # uniqueness, judged per call: any OTHER denotation that consumes all the bytes must be a reviewed alias of the mnemonic
@@ -1041,6 +1049,14 @@ def run(ck):
                     and not re.match(r"^(26|2e|36|3e|64|65|67)", hb):
                 # the explicit [zdi] / [zax] operand's segment / address-size override is dropped
                 key = "C01/explicit-fixed-memory-operand-override-dropped/%s" % c["name"]
+            elif is_wait(c) and re.match(r"^(26|2e|36|3e|64|65|67)+9b", hb):
+                # the override prefixes of the memory operand precede FWAIT: they apply to FWAIT and are lost for the instruction
+                key = "C01/wait-form-override-prefix-before-fwait/%s" % c["name"]     # repaired by fixes/C01-fpu-wait-prefix-order.patch
+            elif is_wait(c) and not hb.startswith("9b"):
+                key = "C01/%s/wait-prefix-missing" % c["name"]
+            elif "es-side-seg" in c.get("strat", ""):
+                # a segment override on the ES:[zdi] operand of a string instruction, which cannot be overridden
+                key = "C01/segment-override-on-es-operand/%s" % c["name"]
             elif c["name"] in ("lcall", "ljmp") and len(c["ops"]) == 2 and c["ops"][1][0] == "I" and c["ops"][1][1] < 0:
                 key = "C01/far-immediate-negative-offset/%s" % c["name"]     # repaired by fixes/C01-far-immediate-offset.patch
             elif st == "ok" and lprobs == [] and linsts == 1:
@@ -1097,7 +1113,7 @@ def run(ck):
          "unsupported": {k: {"rows": len(v), "mnemonics": sorted(set(v))[:40]} for k, v in sorted(uns.items())},
          "asmjit_tables": tinfo,
          "db_rows_repaired": sorted(set("%s [%s]" % (r["name"], r["repaired"]) for r in rows if r.get("repaired")))[:60], "input_distribution": strata, "oracle": stats, "known_base_address_calls": len([1 for c, _ in acc if c.get("base")]),
-         "known_base_address_calls_encoded_rip_relative": rip_readings, "x87_wait_form_calls_verified_as_9B_plus_fn_form": wait_forms_verified, "mnemonics_llvm_mc_14_never_decodes": sorted(llvm_never)[:300], "database_regenerated": regen is not None},
+         "known_base_address_calls_encoded_rip_relative": rip_readings, "x87_wait_form_calls_verified": wait_forms_verified, "mnemonics_with_fixed_base_memory_signature": fixed_sig_names, "mnemonics_llvm_mc_14_never_decodes": sorted(llvm_never)[:300], "database_regenerated": regen is not None},
         assumptions=["the C++ harness calls the real x86::Assembler::_emit of /repo's working tree with DiagnosticOptions::kValidateAssembler",
                      "theorems are about the Gallina structural encoder/decoder; that AsmJit's bytes are decodable to the call is established on the generated calls only",
                      "the structural decoding rules (X86Model.v) and the disp8*N table (X86Denote.v) were written by hand from the Intel SDM; llvm-mc 14 cross-checks them on every accepted encoding it knows",
